@@ -120,8 +120,7 @@ func nextCloserDeniedWithWork(
 	work NSEC3Work,
 ) (denied bool, secure bool, err error) {
 	for _, rr := range nsecSet {
-		n := rr.(*dns.NSEC)
-		if nsecCovers(n.Header().Name, n.NextDomain, nextCloser) {
+		if nsecDenies(rr.(*dns.NSEC), nextCloser) {
 			return true, true, nil
 		}
 	}
